@@ -19,9 +19,26 @@ if ROOT not in sys.path:
     sys.path.insert(0, ROOT)
 
 
+_OUT = None
+
+
+def _claim_stdout():
+    """Results go to the pipe the parent reads; whatever the library itself
+    prints (the C thrift reader reports every corrupt field on stdout, which
+    is gigabytes for a damaged footer) goes to /dev/null."""
+    global _OUT
+    if _OUT is None:
+        sys.stdout.flush()
+        _OUT = os.fdopen(os.dup(1), 'w')
+        dn = os.open(os.devnull, os.O_WRONLY)
+        os.dup2(dn, 1)
+        os.close(dn)
+
+
 def emit(obj):
-    sys.stdout.write('@@' + json.dumps(obj, default=str) + '\n')
-    sys.stdout.flush()
+    _claim_stdout()
+    _OUT.write('@@' + json.dumps(obj, default=str) + '\n')
+    _OUT.flush()
 
 
 def load(check):
@@ -47,6 +64,7 @@ def run_case(mod, case):
 def main():
     warnings.simplefilter('ignore')
     job = json.load(sys.stdin)
+    _claim_stdout()
     faulthandler.enable()
     mod = load(job['check'])
     kind = job.get('kind', 'block')
